@@ -59,6 +59,11 @@ pub fn generate(seed: u64, idx: u64) -> Scenario {
     let uri = fresh_uri(0);
     let kind = *rng.pick(&[DocKind::Valid, DocKind::Valid, DocKind::Broken, DocKind::Soup, DocKind::Unicode]);
     let mut t = gen::document(&mut rng, kind);
+    let tiny = rng.chance(120);
+    if tiny {
+        // tiny documents and edits at the boundaries of the text
+        t = rng.pick(&gen::TINY).to_string();
+    }
     if rng.chance(400) {
         // tails whose lexing depends on what is typed next
         t.push_str(*rng.pick(&TAILS));
@@ -85,7 +90,8 @@ pub fn generate(seed: u64, idx: u64) -> Scenario {
         let k = *rng.pick(&[1usize, 1, 1, 1, 2, 4]);
         let mut edits = vec![];
         for _ in 0..k {
-            let (r, repl) = match rng.below(10) {
+            let (r, repl) = match rng.below(if tiny { 20 } else { 11 }) {
+                10.. => gen::boundary_case_edit(&mut rng, &cur),
                 0..=4 => adjacency_edit(&mut rng, &cur),
                 5 | 6 => {
                     let small = rng.chance(700);
